@@ -10,7 +10,8 @@ RULE = ("(a) systematic: a loop body built from a prefix, a break/continue at ne
         "iteration counts 0..3; loop-local declarations shadowing outer names are printed after the loop; "
         "(b) random structured programs with loops enabled. Compared with the Lean model and the structured semantics. "
         "Non-trivial: something follows the break/continue textually in the body."
-        ' Brace-less loops (`লুপ … আবার;`) over random programs, model-vs-implementation.')
+        ' Brace-less loops (`লুপ … আবার;`) over random programs, model-vs-implementation.'
+        ' Shared name-collision family (props/collisions.py): 24 scenarios in which one name is bound more than once, x 2 layouts.')
 ASSUMPTIONS = ["generated programs terminate; loops are counter-guarded"]
 default_compare = lambda m, i: C.compare_run(m, i)
 
@@ -153,4 +154,10 @@ def cases(rng, tier, stats):
             out.append(C.Case("braceless-loops", [run_req(src, spec=1)], cmp_run(line=True), None, info={"src": src}, nontrivial=False))
             nb += 1
     stats["braceless_loop_programs"] = nb
+    # one name in two roles (props/collisions.py): shadowed functions, parameters named like globals / built-ins / their own function,
+    # bare conditions, indexed and plain writes, re-declarations — every use of a name resolves to its innermost binding
+    from props import collisions
+    nc_ = collisions.family()
+    out += nc_
+    stats["name_collision_programs"] = len(nc_)
     return out
